@@ -325,6 +325,22 @@ def cli_scope(res, pid, rng, tier):
     if s_ != "ok" or (o_.get("a.cfg") or "") != "ipv6 address %s/64\nip address %s\n" % (w6, w4):
         fails.append({"kind": "a run does not preserve the number of host bits it was given (default 8)", "argv": ["-a", "-s", "hb6"],
                       "output": o_.get("a.cfg"), "library_with_8_host_bits": [w6, w4]})
+    # real runs: the ends of the accepted host-bit range (0, 1, 31, 32) do what the mapping function with that many host bits does,
+    # with -a and with -u
+    for hb in (0, 1, 31, 32):
+        for flag in ("-a", "-u"):
+            s_, o_, _ = run_cli([flag, "-s", "hbend", "--preserve-host-bits", str(hb)], {"a.cfg": "ip address 12.34.56.78\nipv6 address 2001:db8::1234:5678/64\n"})
+            res.evaluations += 1
+            try:
+                m4, m6 = _A4("hbend", preserve_suffix=hb), _A6("hbend", preserve_suffix=hb)
+                f4, f6 = (m4.anonymize, m6.anonymize) if flag == "-a" else (m4.deanonymize, m6.deanonymize)
+                want_ = "ip address %s\nipv6 address %s/64\n" % (_ipa.IPv4Address(int(f4(int(_ipa.IPv4Address("12.34.56.78"))))),
+                                                                 _ipa.IPv6Address(int(f6(int(_ipa.IPv6Address("2001:db8::1234:5678"))))))
+            except Exception:  # noqa
+                continue
+            if s_ != "ok" or (o_.get("a.cfg") or "") != want_:
+                fails.append({"kind": "preserved host bits: %d is rejected or not applied" % hb, "argv": [flag, "-s", "hbend", "--preserve-host-bits", str(hb)],
+                              "status": s_, "output": o_.get("a.cfg"), "mapping_function_with_that_many_host_bits": want_})
     # real runs: rejected combinations and the no-option case write nothing
     for argv in (["-u"], ["-u", "-a", "-s", "x"], ["-d", "map"], ["-a", "--preserve-host-bits", "33"], [], ["-u", "-p"], ["-d", "map", "-p", "-u", "-s", "q"]):
         d = tempfile.mkdtemp(prefix="ncverif_")
